@@ -23,7 +23,7 @@ pub fn def() -> CheckDef {
             real: super::REAL_COMPONENTS,
             stub: super::STUB_COMPONENTS,
         },
-        runs: |t| if t.thorough() { 30_000 } else { 1_000 },
+        runs: |t| if t.thorough() { 150_000 } else { 6_000 },
         run,
         execute,
         expected_probes: &["multibyte_ancestor_selected", "extension_sibling_present", "stitched_listing_filtered", "nonexistent_subtree", "nested_subtree_restored", "file_as_subtree"],
